@@ -1,5 +1,5 @@
 """Checks of the Channel.tla family: C01 C02 C05 C06 C11 C18."""
-import json, os, random, time
+import json, os, random, shutil, subprocess, time
 from vlib import *
 from chanlib import *
 
@@ -7,9 +7,9 @@ from core import *
 
 
 def mc_and_replay_cex(cx, name, c, invariants, properties=(), spec="Spec", maxpolls=2, what="", timeout=900,
-                      expect_violation=False):
+                      expect_violation=False, base="Channel"):
     """Model-check; a spec-level counterexample is never a verdict: it is replayed on the real code."""
-    res = model_check(cx.wd, name, c, invariants, properties, spec=spec, maxpolls=maxpolls, timeout=timeout)
+    res = model_check(cx.wd, name, c, invariants, properties, spec=spec, maxpolls=maxpolls, timeout=timeout, base=base)
     cx.add_mc(res, c, what or name)
     log("  TLC %s: %s distinct, violated=%s, t=%.1fs" % (what or name, res.get("distinct"), res.get("violated"), time.time() - cx.t0))
     if res["violated"]:
@@ -70,7 +70,7 @@ def replay_graph(cx, name, c, max_paths=None, maxpolls=2, sizes=None, timeout=90
     cx.absorb(results, cases)
     # trace validation uses the real MaxPolls=10 unless the graph was bounded differently
     cv = dict(c)
-    v = validate_traces(cx.wd, name + "T", cv, results)
+    v = validate_traces(cx.wd, name + "T", cv, results, invariants=getattr(cx, "trace_invariants", None))
     amplify(cx, name, c, results, v)
     cx.traces_validated += len(v["accepted"])
     cx.states += v["states"]
@@ -103,7 +103,7 @@ def random_runs(cx, name, c, n, policies=("uniform", "pct", "window"), fault_pro
     results = run_driver(cx.driver, "chan", cases, cx.wd, tag=name)
     cx.absorb(results, cases)
     if traced:
-        v = validate_traces(cx.wd, name + "T", c, [r for r in results if r.get("events")])
+        v = validate_traces(cx.wd, name + "T", c, [r for r in results if r.get("events")], invariants=getattr(cx, "trace_invariants", None))
         amplify(cx, name, c, results, v)
         cx.traces_validated += len(v["accepted"])
         cx.states += v["states"]
@@ -183,6 +183,26 @@ def check_C01(cx):
     return finish(cx)
 
 
+def prove_inductive(wd, module, init, indinit, indinv, timeout=600):
+    """Init => IndInv and IndInv /\\ Next => IndInv' with Apalache (unbounded integers). A failure to prove is
+    a defect of the specification work, never a verdict about the code: Inconclusive."""
+    shutil.copy(os.path.join(SPEC, module + ".tla"), wd)
+    out = {}
+    for label, args in (("base", ["--init=" + init, "--inv=" + indinv, "--length=0"]),
+                        ("step", ["--init=" + indinit, "--inv=" + indinv, "--length=1"])):
+        t0 = time.time()
+        try:
+            p = subprocess.run(["apalache-mc", "check", "--out-dir=" + os.path.join(wd, "_apalache-out")] + args + [module + ".tla"],
+                               cwd=wd, stdout=subprocess.PIPE, stderr=subprocess.STDOUT, timeout=timeout, text=True)
+        except (subprocess.TimeoutExpired, OSError) as e:
+            raise Inconclusive("Apalache did not run to completion (%s): %s" % (label, e))
+        if "EXITCODE: OK" not in p.stdout:
+            raise Inconclusive("Apalache could not establish the %s case of %s!%s:\n%s" % (label, module, indinv, p.stdout[-600:]))
+        out[label] = "proved in %.1fs" % (time.time() - t0)
+    shutil.rmtree(os.path.join(wd, "_apalache-out"), ignore_errors=True)
+    return out
+
+
 def check_C02(cx):
     cx.build()
     quick = cx.tier == "quick"
@@ -200,8 +220,16 @@ def check_C02(cx):
         ]
         live += [("live-q2", cfg({"W1": W("W1", "Wv"), "W2": W("CW1")}, qsize=2, until=True)),
                  ("live-q1nb", cfg({"W1": W("W1", "Wv"), "W2": W("CW1")}, qsize=1, until=False))]
+    # unbounded part: the counting abstraction Ownership.tla (any number of writers, any queue length) has the
+    # C02 safety core as an inductive invariant (Apalache); the bounded Channel configurations below are checked
+    # by TLC to refine it step by step (ChannelOwn.tla), and Channel itself is bound to the code by the replays
+    cx.trace_invariants = TRACE_INVARIANTS + ["OwnIndInv"]   # every recorded real execution also stays inside the proved invariant
+    ap = prove_inductive(cx.wd, "Ownership", "Init", "IndInit", "IndInv")
+    cx.extra_cov["apalache_inductive_invariant"] = ap
+    log("  Apalache: Ownership!IndInv inductive (unbounded): %s" % ap)
     for name, c in mcs:
-        mc_and_replay_cex(cx, "MC" + name.replace("-", ""), c, inv, what="C02 safety core, " + name)
+        mc_and_replay_cex(cx, "MC" + name.replace("-", ""), c, inv + ["OwnIndInv"], properties=["RefinesOwnership"],
+                          base="ChannelOwn", what="C02 safety core + refinement of Ownership, " + name)
     for name, c in live:
         mc_and_replay_cex(cx, "MC" + name.replace("-", ""), c, ["TypeOK"], properties=["C02_Live"], spec="FairSpec",
                           what="C02 liveness under weak fairness, " + name)
@@ -376,9 +404,12 @@ def check_C18(cx):
         ("nb-q1", cfg({"W1": W("W1", "CW1"), "W2": W("Wv"), "W3": W("CWv:dead")}, qsize=1, until=False)),
         ("b-q1-mortal", cfg({"W1": W("CW1:mortal"), "W2": W("W1"), "W3": W("CWv:mortal")}, qsize=1, until=True)),
         ("b-q1-close", cfg({"W1": W("W1"), "W2": W("Wv"), "W3": W("CW1")}, {"C1": "e1"}, qsize=1, until=True)),
+        # writers with contexts that never end, parked on the full queue when the channel's own (parent) context is cancelled
+        ("b-q1-pcancel", cfg({"W1": W("W1"), "W2": W("Wv"), "W3": W("W1")}, qsize=1, until=True, pcancel=True)),
     ]
     if not quick:
         mcs += [
+            ("b-q1-close-faults", cfg({"W1": W("W1"), "W2": W("Wv"), "W3": W("W1")}, {"C1": "e1"}, qsize=1, until=True, maxfaults=2)),
             ("nb-q2", cfg({"W1": W("W1", "CW1"), "W2": W("Wv", "W1"), "W3": W("CWv:dead")}, qsize=2, until=False)),
             ("b-q2-mortal", cfg({"W1": W("CW1:mortal", "W1"), "W2": W("W1", "Wv"), "W3": W("CWv:mortal")}, qsize=2, until=True)),
             ("b-q1-close-nil", cfg({"W1": W("W1"), "W2": W("Wv"), "W3": W("CW1:mortal")}, {"C1": "nil"}, qsize=1, until=True)),
@@ -391,7 +422,8 @@ def check_C18(cx):
     write_live = ["C18_WaitEnds"]
     mc_and_replay_cex(cx, "MClive", live, ["TypeOK"], properties=write_live, spec="FairSpec", what="C18 blocked writers eventually return")
     graphs = [("gnb", cfg({"W1": W("W1"), "W2": W("CW1:far"), "W3": W("CWv:far")}, qsize=1, until=False)),
-              ("gbm", cfg({"W1": W("W1"), "W2": W("CW1:mortal")}, qsize=1, until=True))]
+              ("gbm", cfg({"W1": W("W1"), "W2": W("CW1:mortal")}, qsize=1, until=True)),
+              ("gbp", cfg({"W1": W("W1"), "W2": W("Wv")}, qsize=1, until=True, pcancel=True))]
     if not quick:
         graphs += [("gb", cfg({"W1": W("W1"), "W2": W("CW1:mortal"), "W3": W("Wv")}, qsize=1, until=True)),
                    ("gbc", cfg({"W1": W("W1"), "W2": W("CW1")}, {"C1": "e1"}, qsize=1, until=True))]
@@ -408,6 +440,18 @@ def check_C18(cx):
     n = 30 if quick else 300
     for name, c in big:
         random_runs(cx, name, c, n, policies=("window", "uniform", "pct", "drain"), cancel_prob=0.05, sizes=NZ_SIZES)
+    # the channel ends under parked writers without draining for them: parent context cancelled, or Close whose
+    # own transport calls fail
+    ending = [
+        ("r4q1bp", cfg({"W%d" % i: W("W1", "Wv") for i in range(1, 5)}, qsize=1, until=True, pcancel=True),
+         dict(pcancel_prob=0.08, policies=("window", "uniform", "stall"))),
+        # (no stalled sender here: Close polls for the sender with real sleeps)
+        ("r4q1bcf", cfg({"W%d" % i: W("W1", "Wv") for i in range(1, 5)}, {"C1": "e1"}, qsize=1, until=True, maxfaults=2),
+         dict(fault_prob=0.25, policies=("window", "uniform"))),
+    ]
+    for name, c, kw in ending:
+        random_runs(cx, name, c, n, sizes=NZ_SIZES, **kw)
+        log("  random %s done, t=%.1fs" % (name, time.time() - cx.t0))
     return finish(cx)
 
 
@@ -518,6 +562,11 @@ def check_C09(cx):
     ]
     for name, c in big:
         random_runs(cx, name, c, n, sizes=NZ_SIZES)
+    # messages whose enqueue fails (full fail-fast queue) next to messages that are queued together: a buffer
+    # given out twice would mix the bytes of two messages (deterministic pool: one P, no GC)
+    cf = cfg({"W1": W("MR::2", "M", "MB", "M"), "W2": W("M", "MR::2", "MV", "M"), "W3": W("MB", "M", "M", "RF::2")}, qsize=1, until=False)
+    cf["pinpool"] = True
+    random_runs(cx, "r3failing", cf, n, policies=("stall", "window", "uniform"), sizes=[1, 7, 100, 500, 1000, 1023, 1024])
     # messages framed by the shipped codecs (text + delimiter): []byte goes out as one vectored write,
     # a string becomes a reader (body, then delimiter) = two low-level writes
     for name, c in [("codec-bytes", cfg({"W1": W("MD", "MD"), "W2": W("MD"), "W3": W("MD")}, qsize=2, until=True)),
@@ -565,6 +614,13 @@ def check_C10(cx):
     n = 40 if quick else 400
     for name, c in big:
         random_runs(cx, name, c, n, policies=("drain", "window", "uniform", "pct"), sizes=NZ_SIZES)
+    # failing writes (full fail-fast queue, dead context, closed channel) must not hand their buffers out twice
+    failing = [
+        ("r3q1nb", cfg({"W1": W("RF::2", "W1", "Wv"), "W2": W("Wv", "MR::2", "W1"), "W3": W("W1", "CW1:dead", "Wv", "W1")}, qsize=1, until=False, trackbufs=True)),
+        ("r3q2nbc", cfg({"W1": W("RF::2", "W1"), "W2": W("Wv", "MR::2"), "W3": W("CWv:dead", "W1", "W1")}, {"C1": "e1"}, qsize=2, until=False, trackbufs=True)),
+    ]
+    for name, c in failing:
+        random_runs(cx, name, c, n, policies=("stall", "window", "uniform"), sizes=NZ_SIZES)
     cx.assume.append("pool scribbling relies on GOMAXPROCS(1) and disabled GC so that a recycled buffer is what the next Get of its class returns")
     return finish(cx)
 
